@@ -944,7 +944,7 @@ fn main() {
     let mut n_oracle_only_nontrivial = 0usize;
     let mut n_modelled_eligible = 0usize;
     let mut pending: Vec<(usize, String, serde_json::Value, bool, Vec<String>)> = Vec::new();
-    let quick_target = 4000usize;
+    let quick_fill = 300usize;
     // known-finding classes are reported 20 times each at most (all are counted), so that they
     // cannot crowd a new failure out of the bounded failure list
     let mut kf_counts: BTreeMap<String, usize> = BTreeMap::new();
@@ -1058,10 +1058,10 @@ fn main() {
             pending.push((ci, key, json!(null), nontrivial, tags));
         }
     }
-    // quick tier: fill the sample up to the target with uniformly drawn remaining cells
-    if !thorough && sink.count < quick_target && !pending.is_empty() {
-        let want = quick_target - sink.count;
-        let p_num = want as u64;
+    // quick tier: besides the strata and the focus cells, a uniform draw of `quick_fill` of the
+    // remaining modelled cells; whatever is not sent to the model stays implementation-side only
+    {
+        let p_num = if thorough { 0 } else { quick_fill as u64 };
         let p_den = pending.len() as u64;
         for (ci, key, _, nontrivial, tags) in pending {
             if !rng.chance(p_num, p_den.max(1)) {
